@@ -1075,6 +1075,32 @@ pub fn top_level_span(parsed: &ParsedSource, name: &str) -> Option<(usize, usize
   None
 }
 
+/// spans of *all* top-level items that declare `name` (a type and a function may share a name)
+pub fn top_level_spans(parsed: &ParsedSource, name: &str) -> Vec<(usize, usize)> {
+  use deno_ast::SourceRangedForSpanned;
+  let deno_ast::ProgramRef::Module(module) = parsed.program_ref() else { return vec![] };
+  let start = parsed.text_info_lazy().range().start;
+  let mut out = vec![];
+  for item in &module.body {
+    let mut v = vec![];
+    match item {
+      ModuleItem::Stmt(Stmt::Decl(d)) => decl_names(d, &mut v),
+      ModuleItem::ModuleDecl(ModuleDecl::ExportDecl(e)) => decl_names(&e.decl, &mut v),
+      ModuleItem::ModuleDecl(ModuleDecl::ExportDefaultDecl(d)) => match &d.decl {
+        DefaultDecl::Class(c) => v.push((c.ident.as_ref().map(|i| i.sym.to_string()).unwrap_or_default(), "class")),
+        DefaultDecl::Fn(f) => v.push((f.ident.as_ref().map(|i| i.sym.to_string()).unwrap_or_default(), "function")),
+        DefaultDecl::TsInterfaceDecl(i) => v.push((i.id.sym.to_string(), "interface")),
+      },
+      _ => {}
+    }
+    if v.iter().any(|(n, _)| n == name) {
+      let r = item.range();
+      out.push((r.start.as_byte_index(start), r.end.as_byte_index(start)));
+    }
+  }
+  out
+}
+
 // ------------------------------------------------------------ signature slots (C11)
 //
 // A "slot" is one place of a module-level declaration where the source can
